@@ -3,6 +3,6 @@
 patch="$1"; shift
 cd /repo && git apply "$patch" || { echo "patch does not apply"; exit 2; }
 for c in "$@"; do
-  (cd /verif && ./check "$c" 2>&1 | tail -3)
+  (cd /verif && VERIF_KEEP_EVIDENCE=1 ./check "$c" 2>&1 | tail -3)
 done
 cd /repo && git checkout -- . && git status --short | head -3
